@@ -419,6 +419,8 @@ def check(chk):
     _enable_state_notifies(chk, repo)
     _time_placeholder_wakeups(chk, repo)
     _shot_state_change_notified(chk, repo)
+    _monitored_backing_stores(chk)
+    _play_time_settings_not_written(chk)
 
     # ------------------------------------------------------------ PAIR-19
     f = repo.func("mpf/core/config_player.py", "ConfigPlayer._update_subscription")
@@ -831,9 +833,125 @@ def _flow(chk, f, fcfg, node, expr, subs, acc, what):
                construct=f.ident, text="%s dropped from %s in %s" % (var, what, f.name))
 
 
+def _monitored_backing_stores(chk):
+    """NOTIFY-1 (monitored properties): DeviceMonitor wakes subscribers from the monitored attribute's __setattr__.  Where the attribute is a
+    property, its setter stores into a backing field (`self._state.value`); only a write *through the property* reaches the monitor.  So nobody
+    but the setter stores into the backing field of a monitored property - unless the writer announces the change itself
+    (notify_virtual_change(<attr>, old, new), as StateMachine does on unload)."""
+    repo = chk.repo
+    n = 0
+    for c in repo.all_classes("mpf/devices/"):
+        mons = [const_value(a) for d in c.node.decorator_list if isinstance(d, ast.Call) and (dotted(d.func) or "").endswith("DeviceMonitor") for a in d.args]
+        for attr in [m for m in mons if isinstance(m, str)]:
+            setters = [fn for k in repo.mro(c) for fn in k.node.body if isinstance(fn, ast.FunctionDef) and fn.name == attr
+                       and any(src(d) == attr + ".setter" for d in fn.decorator_list)]
+            if not setters:
+                continue
+            backing = {src(t) for x in ast.walk(setters[0]) if isinstance(x, (ast.Assign, ast.AugAssign))
+                       for t in (x.targets if isinstance(x, ast.Assign) else [x.target]) if isinstance(t, ast.Attribute)}
+            if not backing:
+                continue
+            n += 1
+            for k in [c] + list(repo.subclasses(c)):
+                for m in k.methods.values():
+                    if m.node is setters[0] or m.name == "__init__":
+                        continue
+                    # a direct write is fine where the same function announces the change itself (old, new) after it
+                    says = [y for y in m.calls() if call_attr(y) == "notify_virtual_change" and y.args and const_value(y.args[0]) == attr]
+                    for x in walk_local(m.node):
+                        if isinstance(x, (ast.Assign, ast.AugAssign)):
+                            for t in (x.targets if isinstance(x, ast.Assign) else [x.target]):
+                                if src(t) in backing and not says:
+                                    chk.ob("NOTIFY-1", "the backing field of a monitored property is written through the property only (the monitor "
+                                           "hooks the attribute, not the field)", False, m.where(x), detail="%s writes %s directly: subscribers of "
+                                           "device.<type>.<name>.%s are not woken for this change" % (m.qualname, src(t), attr), construct=m.ident,
+                                           text="backing store %s bypasses monitored %s" % (src(t), attr))
+            chk.ob("NOTIFY-1", "%s.%s: backing field %s written by the setter only" % (c.name, attr, sorted(backing)), True, c.where(), construct=c.ident,
+                   text="backing of %s.%s" % (c.name, attr))
+    chk.ob("NOTIFY-1", "monitored properties with a backing field found (%d)" % n, n >= 1, "mpf/devices:1", text="monitored properties present")
+
+
+_COPIERS = {"deepcopy", "copy", "dict", "list"}
+
+
+def _play_time_settings_not_written(chk):
+    """STALE-1 (config players): the settings a player plays are the stored configuration, evaluated afresh on every play.  Writing an evaluated
+    value into them (directly or through an alias) freezes the first evaluation.  A play-time function stores only into copies."""
+    repo = chk.repo
+    CONFIG_TIME = {"validate_config_entry", "get_express_config", "get_full_config", "_validate_config_item", "get_list_config", "expand_config_entry",
+                   "_expand_device_config", "_parse_and_validate_conditional", "process_config", "__init__"}
+    SETTINGS = {"settings", "params", "s", "show_settings", "device_settings", "event_settings", "config"}
+    n = 0
+    for c in repo.all_classes("mpf/config_players/"):
+        for m in c.methods.values():
+            if m.name in CONFIG_TIME:
+                continue
+            tainted = set(m.params()) & SETTINGS
+            if not tainted:
+                continue
+            n += 1
+            cfg = m.cfg()
+            changed = True
+            while changed:
+                changed = False
+                for x in walk_local(m.node):
+                    srcs = []
+                    if isinstance(x, ast.Assign):
+                        srcs = [(t, x.value) for t in x.targets]
+                    elif isinstance(x, (ast.For, ast.comprehension)):
+                        it = x.iter
+                        if isinstance(it, ast.Call) and call_attr(it) in ("items", "values"):
+                            it = it.func.value
+                        srcs = [(x.target, it)]
+                    for t, v in srcs:
+                        while isinstance(v, ast.Subscript):
+                            v = v.value
+                        if isinstance(v, ast.Name) and v.id in tainted:
+                            els = t.elts if isinstance(t, (ast.Tuple, ast.List)) else [t]
+                            for nm in [y.id for y in els if isinstance(y, ast.Name)]:
+                                if nm not in tainted:
+                                    tainted.add(nm)
+                                    changed = True
+            for node in cfg.nodes:
+                if node.kind != "stmt":
+                    continue
+                for x in node.walk():
+                    tgt = None
+                    if isinstance(x, ast.Subscript) and isinstance(x.ctx, (ast.Store, ast.Del)):
+                        tgt = x.value
+                    elif isinstance(x, ast.Call) and call_attr(x) in ("update", "pop", "clear", "setdefault", "append") and isinstance(x.func, ast.Attribute):
+                        tgt = x.func.value
+                    while isinstance(tgt, ast.Subscript):
+                        tgt = tgt.value
+                    if not (isinstance(tgt, ast.Name) and tgt.id in tainted):
+                        continue
+                    def copies(name, at, depth=0):
+                        out = []
+                        for k in cfg.nodes:
+                            if k.kind == "stmt" and isinstance(k.ast, ast.Assign) and any(src(t) == name for t in k.ast.targets) and cfg.dominates(k.id, at):
+                                v = k.ast.value
+                                if isinstance(v, ast.Call) and call_attr(v) in _COPIERS:
+                                    out.append(k)
+                                elif isinstance(v, ast.Name) and depth < 2 and v.id != name and copies(v.id, k.id, depth + 1):
+                                    out.append(k)
+                        return out
+                    fresh = copies(tgt.id, node.id)
+                    chk.ob("STALE-1", "a config player writes evaluated values only into a copy of the stored settings (a copy is taken on every path "
+                           "before the write)", bool(fresh), m.where(node.ast), detail="%s is (an alias of) the stored settings: the first play overwrites the "
+                           "template with its value, every later play repeats that value" % tgt.id, construct=m.ident,
+                           text="stored settings written at play time via %s in %s" % (tgt.id, m.qualname))
+    chk.ob("STALE-1", "play-time functions of config players examined for writes into stored settings (%d)" % n, n >= 5, "mpf/config_players:1",
+           text="play-time functions examined")
+
+
 def battery():
     from sa.battery import M
     return [
+        M("multiball lock per-turn reset not announced (F26 reverted)", "mpf/devices/multiball_lock.py", "        self.notify_virtual_change(\"locked_balls\", old_locked_balls, self.locked_balls)\n", "", "NOTIFY-1"),
+        M("reset writes the counter value behind the monitor", "mpf/devices/logic_blocks.py", "        self.completed = False\n        self.value = self.get_start_value()", "        self.completed = False\n        self._state.value = self.get_start_value()", "NOTIFY-1"),
+        M("event player evaluates templates into the stored params", "mpf/config_players/event_player.py", "                params = deepcopy(params)\n", "", "STALE-1"),
+        M("event player evaluates into an alias of the stored params", "mpf/config_players/event_player.py", "        for key, param in params.items():\n            if isinstance(param, dict):\n                params = deepcopy(params)\n                # TODO: move this to parsing time\n                params[key] = self._evaluate_event_param(param, kwargs)\n        self.machine.events.post(event, priority=priority, **params)", "        event_params = params\n        for key, param in params.items():\n            if isinstance(param, dict):\n                event_params[key] = self._evaluate_event_param(param, kwargs)\n        self.machine.events.post(event, priority=priority, **event_params)", "STALE-1"),
+        M("twin: copy taken once before the loop", "mpf/config_players/event_player.py", "        for key, param in params.items():\n            if isinstance(param, dict):\n                params = deepcopy(params)\n", "        event_params = deepcopy(params)\n        params = event_params\n        for key, param in event_params.items():\n            if isinstance(param, dict):\n", None),
         M("shot stores the new state before reading the old name", "mpf/devices/shot.py", "        old = self.player[self._player_var_name]\n        try:", "        old = self.player[self._player_var_name]\n        self.player[self._player_var_name] = state\n        try:", "NOTIFY-1"),
         M("hour subscription wakes a minute late", "mpf/core/placeholder_manager.py", "asyncio.sleep(3600 - current_time.second - 60 * current_time.minute)", "asyncio.sleep(60 * (60 - current_time.minute) + 60 - current_time.second)", "TIME-16"),
         M("twin: hour wake-up spelled as minutes and seconds left", "mpf/core/placeholder_manager.py", "asyncio.sleep(3600 - current_time.second - 60 * current_time.minute)", "asyncio.sleep(60 * (59 - current_time.minute) + 60 - current_time.second)", None),
